@@ -129,13 +129,14 @@ var sigs = map[string]sig{
 	"redactQueryValues":               {params: map[string]string{"parentCoreOp": "Meta"}, locals: map[string]string{"coreOp": "Meta"}},
 	"redactArrayValuesWithKey":        {},
 	"redactArrayValues":               {},
+	"HashName":                        {},
 }
 
 // functions that call one another: emitted in one `mutual` block, all with a fuel argument
 var mutualGroups = [][]string{{"redactQueryValues", "redactArrayValuesWithKey"}}
 
 // emission order (callees first)
-var order = []string{"reMatchesAnyKeyInPath", "redactString", "IsEmail", "withinSearchUserDocument", "RemoveElementAfter", "RemoveElementsBeforeIncluding",
+var order = []string{"HashName", "reMatchesAnyKeyInPath", "redactString", "IsEmail", "withinSearchUserDocument", "RemoveElementAfter", "RemoveElementsBeforeIncluding",
 	"traverseMapPath", "getOp", "redactScalarValue", "isFieldNameValue", "isRedactableFieldPatternInArray", "isInSearchStage", "augmentOp",
 	"redactQueryValues", "redactArrayValuesWithKey", "redactArrayValues"}
 
@@ -465,7 +466,7 @@ func (x *tr) expr(e ast.Expr) ex {
 			x.bad(v, "3-index slice")
 		}
 		a := x.expr(v.X)
-		if a.t.k != "StrList" && a.t.k != "JList" {
+		if a.t.k != "StrList" && a.t.k != "JList" && a.t.k != "Bytes" {
 			x.bad(v, "slicing of "+a.t.String())
 		}
 		r := a
@@ -705,7 +706,16 @@ func (x *tr) call(c *ast.CallExpr) ex {
 				return ex{"([] : List Str)", T("StrList"), false}
 			}
 		}
-		x.bad(c, "make other than make([]string, 0, …)")
+		if len(c.Args) == 2 && (typeString(c.Args[0]) == "[]string" || typeString(c.Args[0]) == "[]any") {
+			n := x.expr(c.Args[1])
+			if n.t.k == "Int" {
+				if typeString(c.Args[0]) == "[]string" {
+					return ex{"(List.replicate (" + n.s + ").toNat ([] : Str))", T("StrList"), n.partial}
+				}
+				return ex{"(List.replicate (" + n.s + ").toNat J.null)", T("JList"), n.partial}
+			}
+		}
+		x.bad(c, "make other than make([]T, 0, …) / make([]T, n)")
 	case "[]byte":
 		a := args()
 		if a[0].t.k == "Str" {
@@ -731,11 +741,77 @@ func (x *tr) call(c *ast.CallExpr) ex {
 		if a[0].t.k == "StrList" && a[1].t.k == "Str" {
 			return ex{"(" + a[0].s + ".contains " + a[1].s + ")", T("Bool"), anyPartial(a)}
 		}
-	case "HashName":
+	case "strings.TrimLeft":
 		a := args()
-		if len(a) == 1 && a[0].t.k == "Str" {
-			return ex{"(hashName g.redactedString " + a[0].s + ")", T("Str"), a[0].partial}
+		if a[0].t.k == "Str" && a[1].t.k == "Str" {
+			return ex{"(trimLeftCutset " + a[0].s + " " + a[1].s + ")", T("Str"), anyPartial(a)}
 		}
+	case "strings.Split":
+		// only a single-character literal separator (the model's splitOn)
+		if lit, ok := c.Args[1].(*ast.BasicLit); ok && lit.Kind == token.STRING {
+			sep, err := strconv.Unquote(lit.Value)
+			if err == nil && len(sep) == 1 && sep[0] >= 32 && sep[0] < 127 && sep[0] != '\'' && sep[0] != '\\' {
+				a := x.expr(c.Args[0])
+				if a.t.k == "Str" {
+					return ex{"(splitOn '" + sep + "' " + a.s + ")", T("StrList"), a.partial}
+				}
+			}
+		}
+	case "strings.Join":
+		a := args()
+		if a[0].t.k == "StrList" && a[1].t.k == "Str" {
+			return ex{"(intercalate " + a[1].s + " " + a[0].s + ")", T("Str"), anyPartial(a)}
+		}
+	case "sha256.Sum256":
+		a := args()
+		if a[0].t.k == "Bytes" {
+			return ex{"(sha256 " + a[0].s + ")", T("Bytes"), a[0].partial}
+		}
+	case "fmt.Sprintf":
+		// a format made of literal text, %s (string) and %x (bytes) only
+		if lit, ok := c.Args[0].(*ast.BasicLit); ok && lit.Kind == token.STRING {
+			f, err := strconv.Unquote(lit.Value)
+			if err == nil {
+				parts := []string{}
+				ai := 1
+				cur := ""
+				okf := true
+				p := false
+				for i := 0; i < len(f); i++ {
+					if f[i] != '%' {
+						cur += string(f[i])
+						continue
+					}
+					if i+1 >= len(f) || ai >= len(c.Args) {
+						okf = false
+						break
+					}
+					if cur != "" {
+						parts = append(parts, strLean(cur))
+						cur = ""
+					}
+					a := x.expr(c.Args[ai])
+					ai++
+					i++
+					p = p || a.partial
+					switch {
+					case f[i] == 's' && a.t.k == "Str":
+						parts = append(parts, a.s)
+					case f[i] == 'x' && a.t.k == "Bytes":
+						parts = append(parts, "(hexBytes "+a.s+")")
+					default:
+						okf = false
+					}
+				}
+				if cur != "" {
+					parts = append(parts, strLean(cur))
+				}
+				if okf && ai == len(c.Args) && len(parts) > 0 {
+					return ex{"(" + strings.Join(parts, " ++ ") + ")", T("Str"), p}
+				}
+			}
+		}
+		x.bad(c, "fmt.Sprintf with a format outside {literal text, %s of a string, %x of bytes}")
 	case "orderedmap.NewOrderedMap":
 		return ex{"[]", T("NewMap"), false}
 	}
@@ -899,6 +975,16 @@ func (x *tr) assign(ind int, s *ast.AssignStmt) {
 		id, ok := ie.X.(*ast.Ident)
 		if !ok {
 			x.bad(s, "element store into a non-variable")
+		}
+		if _, local := x.lookup(id.Name); !local && id.Name == "RedactedFieldMapping" {
+			// the package-level side table: nothing in the program reads it (regenerated fact Facts_mapping_write_only), so the
+			// store has no effect on any result; its operands are still evaluated
+			k := x.expr(ie.Index)
+			v := x.expr(s.Rhs[0])
+			if k.partial || v.partial {
+				x.emit(ind, "let _ := ("+k.s+", "+v.s+")")
+			}
+			return
 		}
 		g, ok := x.lookup(id.Name)
 		if !ok || (g.t.k != "JList" && g.t.k != "StrList") {
